@@ -269,6 +269,27 @@ fn conv_case(w: &mut impl std::io::Write, r: &mut Rng, which: u64) {
             writeln!(w, "S cv from_utf8_lossy;in={};out={}", list(&v), list(l.as_bytes())).unwrap();
             if core::str::from_utf8(l.as_bytes()).is_err() { writeln!(w, "{head} :: lossy result is not valid UTF-8").unwrap(); }
             if String::from_utf8_lossy(&v).as_bytes() != l.as_bytes() { writeln!(w, "{head} :: lossy result differs from std").unwrap(); }
+            // the same strict conversion on the fixed string and on the boxed slice: same verdict, same error position,
+            // and a rejected buffer comes back unchanged
+            {
+                let fv: bump_scope::FixedBumpVec<u8> = bump_scope::FixedBumpVec::from_iter_in(v.iter().copied(), &bump);
+                let fr = bump_scope::FixedBumpString::from_utf8(fv);
+                let bx: bump_scope::BumpBox<[u8]> = bump.alloc_slice_copy(&v);
+                let br = bump_scope::BumpBox::<str>::from_utf8(bx);
+                let std = String::from_utf8(v.clone());
+                match (&std, &fr) {
+                    (Ok(a), Ok(b)) => if a.as_bytes() != b.as_bytes() { writeln!(w, "{head} :: FixedBumpString::from_utf8 differs from std").unwrap(); },
+                    (Err(e), Err(f)) => if e.utf8_error() != f.utf8_error() { writeln!(w, "{head} :: FixedBumpString::from_utf8 error differs from std").unwrap(); },
+                    _ => writeln!(w, "{head} :: FixedBumpString::from_utf8 accept/reject differs from std").unwrap(),
+                }
+                match (&std, &br) {
+                    (Ok(a), Ok(b)) => if a.as_bytes() != b.as_bytes() { writeln!(w, "{head} :: BumpBox<str>::from_utf8 differs from std").unwrap(); },
+                    (Err(e), Err(f)) => if e.utf8_error() != f.utf8_error() { writeln!(w, "{head} :: BumpBox<str>::from_utf8 error differs from std").unwrap(); },
+                    _ => writeln!(w, "{head} :: BumpBox<str>::from_utf8 accept/reject differs from std").unwrap(),
+                }
+                if let Err(f) = fr { if f.into_bytes().as_slice() != v.as_slice() { writeln!(w, "{head} :: FixedBumpString::from_utf8 returned other bytes with its error").unwrap(); } }
+                if let Err(f) = br { if &*f.into_bytes() != v.as_slice() { writeln!(w, "{head} :: BumpBox<str>::from_utf8 returned other bytes with its error").unwrap(); } }
+            }
             let mut b2: Bump = Bump::new();
             let l2 = MutBumpString::from_utf8_lossy_in(&v, &mut b2);
             if l2.as_bytes() != l.as_bytes() { writeln!(w, "{head} :: MutBumpString lossy result differs from BumpString's").unwrap(); }
